@@ -993,6 +993,7 @@ func (g *gen) callInline(x *ssa.Call, callee *ssa.Function, args []Val, st State
 	sub := newGen(g.prog, callee, g.cs.Funcs[funcKey(callee)], g.ctx)
 	sub.dry = g.dry
 	sub.isInline = true
+	sub.rootFc = g.rootContract()
 	sub.inheritNoPanic = g.nopanic()
 	sub.inlineDepth = g.inlineDepth + 1
 	sub.fnKey = g.fnKey + "/" + funcKey(callee)
